@@ -73,6 +73,10 @@ func EncodeAddress(ops []byte, addr []byte, addrLen int, val int, add int) []byt
 		}
 		panic("address overflow:" + hex.EncodeToString(ops) + ", addr:" + hex.EncodeToString(addr[:addrLen]))
 	case 4:
+		if isInt32Overflow(int64(val) + int64(add)) {
+			// 修正后的相对地址超出 rel32 的表示范围, 无法修复
+			panic("address overflow:" + hex.EncodeToString(ops) + ", addr:" + hex.EncodeToString(addr[:addrLen]))
+		}
 		LittleEndian.PutInt32(addr, int32(val)+int32(add))
 		return toInst(ops, addr)
 	case 8:
